@@ -29,7 +29,8 @@ LEVEL_TEXT = ('Every monitored call of the real functional_step/functional_obser
               'against an independently written definition of space membership, finite-float reward and boolean flag; '
               'out-of-space actions must raise ValueError and leave state, memoised observation and generator untouched; '
               'the contains predicates are compared with the oracle on members and single-dimension perturbations. '
-              'Universally quantified over compositions/states, so decided only on the executions produced (counts in evidence).')
+              'Universally quantified over compositions/states, so decided only on the executions produced (counts in evidence).'
+              ' Also: steered and dense compositions, view = whole grid poses, in-place predicate probes, observation purity, thirteen non-Action values offered as actions (same ValueError, nothing changed), shared Floor / Wall instances, numpy-typed coordinates.')
 LEVEL_NOTE = ('Trusted: the harness oracle (conforms_state/conforms_observation), the generators honouring documented '
               'preconditions (Floor declared, unique object for distance rewards, beacon present for reach_exit_memory). '
               'Colours of states are outside the statement and not probed.')
